@@ -1472,9 +1472,9 @@ fn main() {
                 let (n, ff) = if phase == "clean" { (n_clean, true) } else { (n_fault, false) };
                 let mut idx = k;
                 while idx < n {
-                    // one run in eight executes on a thread of its own: per-thread
+                    // one run in 32 executes on a thread of its own: per-thread
                     // library state is then in its first-use condition
-                    let outcome = if idx % 8 == 5 {
+                    let outcome = if idx % 32 == 5 {
                         acc.probe("run_on_a_fresh_thread");
                         std::thread::scope(|s| s.spawn(|| simulate_run(seed, idx, ff, &mut acc)).join().expect("harness thread"))
                     } else {
